@@ -84,7 +84,11 @@ def declare(reg):
     reg.contract(C, "Authenticated.unceremonious_bye", params={"self": "ref:Authenticated", "msg": "str"}, trusted=True, yields=True,
                  modifies=["ClientProxy.g_out"], note="assumed: sends BYE and closes; touches no mailbox state")
     reg.contract(C, "Authenticated.send_pending_notifications", params={"self": "ref:Authenticated"}, trusted=True, yields=True,
-                 modifies=["self.pending_notifications", "ClientProxy.g_out"], note="same body as BaseClientHandler.send_pending_notifications (verified there)")
+                 ensures={"flushed-in-order": f"appended(self.client.g_out, old(self.client.g_out), old({PN})) and len({PN}) == 0"},
+                 modifies=["self.pending_notifications", "ClientProxy.g_out"], note="inherited: same body as BaseClientHandler.send_pending_notifications (verified there, same postcondition)")
+    reg.contract(C, "Authenticated.pending_expunges", params={"self": "ref:Authenticated"}, ret="bool", trusted=True,
+                 ensures={"any-expunge": f"result == exists(lambda j: 0 <= j and j < len({PN}) and 'EXPUNGE' in {PN}[j])"},
+                 note="inherited: same body as BaseClientHandler.pending_expunges (verified there, same postcondition)")
     MB = "some(self.mbox)"
     reg.contract(
         C, "Authenticated.do_expunge",
@@ -160,3 +164,26 @@ def declare(reg):
     )
     reg.properties.setdefault("C07", {}).setdefault("bounded", []).append(
         {"name": "mailbox-name-quoting", "module": "harness.fetchdata", "func": "NameQuoting"})
+
+    # ---- the gate of the sequence-numbered commands (C01): no EXPUNGE reaches a session while its non-UID FETCH / STORE / SEARCH runs ----
+    HAS_EXP = f"exists(lambda j: 0 <= j and j < len(old({PN})) and 'EXPUNGE' in old({PN})[j])"
+    NEWOUT = "len(old(self.client.g_out)) <= i and i < len(self.client.g_out)"
+    for fn in ("do_fetch", "do_store", "do_search"):
+        reg.contract(
+            C, f"Authenticated.{fn}", params={"self": "ref:Authenticated", "cmd": "ref:IMAPClientCommand"},
+            raises={"No": None, "Bad": None},
+            # refused with NO: nothing was sent, nothing dropped from the queue
+            exc_ensures={"refusal-sends-nothing": f"implies(raised('No') and (not cmd.uid_command) and self.state == ClientState.SELECTED and not is_none(self.mbox) and {HAS_EXP}, "
+                                                  f"same(self.client.g_out, old(self.client.g_out)) and same({PN}, old({PN})))"},
+            modifies=["self.pending_notifications", "self.fetch_while_pending_count", "ClientProxy.g_out"],
+            ghost={"cut": {"before_with": r"cmd\.ready_and_okay\(self\.mbox\)", "asserts": {
+                # the command proper starts only when no EXPUNGE is queued for this session ...
+                "no-expunge-queued-when-it-runs": f"implies(not cmd.uid_command, forall(lambda j: implies(0 <= j and j < len({PN}), 'EXPUNGE' not in {PN}[j])))",
+                # ... and, for the sequence-numbered form, none has been sent on the way in either
+                "no-expunge-sent-on-entry": f"implies(not cmd.uid_command, forall(lambda i: implies({NEWOUT}, 'EXPUNGE' not in self.client.g_out[i])))",
+                "selected": "self.state == ClientState.SELECTED and not is_none(self.mbox)",
+            }}},
+            is_async=True,
+            props=["C01"],
+            note="verified up to the point where the command queues on the mailbox (cut at `async with cmd.ready_and_okay(self.mbox)`): the gate in front of the command body",
+        )
